@@ -392,7 +392,7 @@ var clauseKeywords = map[string]bool{
 	"use": true, "split": true, "reveal": true, "inline": true, "induction": true, "trigger": true,
 	"unroll": true, "assert": true, "inst": true, "nounfold": true, "unfold": true, "timeout": true,
 	"bounded": true, "havocs": true, "pure": true, "reads": true, "modifies": true, "decreases": true,
-	"effects": true, "case": true, "fuel": true, "assertret": true, "splitret": true, "mapentries": true, "dyntype": true, "witness-gen": true, "defines": true, "establishes": true, "instdepth": true, "useret": true, "initphase": true, "note": true, "trusted": true, "logged": true, "instdepthret": true,
+	"effects": true, "case": true, "fuel": true, "assertret": true, "splitret": true, "mapentries": true, "dyntype": true, "witness-gen": true, "defines": true, "establishes": true, "instdepth": true, "useret": true, "initphase": true, "note": true, "trusted": true, "logged": true, "instdepthret": true, "regionctx": true,
 }
 
 // ParseSpecFile reads a contract file. Lines of interest start with "//@" (in .go files) or are
